@@ -24,7 +24,8 @@ import (
 
 // C19 — retention drops only expired data.
 //
-// Three monitors over the real code:
+// Four monitors over the real code ((d) lives in c19_fault_test.go: the same verdicts as (b) and (c)
+// in histories where metadata commits fail):
 //   (a) pure:    RetentionPolicyInfo.ExpiredShardGroups(t) for explicit t on generated layouts
 //   (b) write:   PointsWriter.MapShards / WritePointsPrivileged against a real meta.Client, the
 //                internal time.Now() bracketed by readings before and after the call
@@ -93,6 +94,7 @@ type c19Wit struct {
 	Points  []string `json:"points,omitempty"`
 	Calls   []string `json:"calls,omitempty"`
 	Details string   `json:"details,omitempty"`
+	History []string `json:"history,omitempty"` // fault stream: the operations of the history so far
 }
 
 // ---- (a) pure ---------------------------------------------------------------------------------
@@ -387,6 +389,24 @@ func c19Points(rg *vkit.Rand, tb time.Time, d time.Duration, n int, ctr *int) ([
 // c19Judge compares what happened to each point with the bracket [t0-D, t1-D].
 // accepted maps the key of every accepted point to the shard group it was routed to.
 func c19Judge(r *vkit.Run, where string, caseNo int, d time.Duration, pts []c19Pt, accepted map[string]uint64, t0, t1 time.Time) (dropped int) {
+	return c19JudgeX(r, nil, where, caseNo, d, pts, accepted, t0, t1)
+}
+
+// c19JudgeCtx lets another stream of the check (failed metadata commits) use the same verdicts with
+// its own event counters, witness part, extra features and history.
+type c19JudgeCtx struct {
+	ev, part string
+	extra    map[string]string
+	hist     []string
+}
+
+func c19JudgeX(r *vkit.Run, cx *c19JudgeCtx, where string, caseNo int, d time.Duration, pts []c19Pt, accepted map[string]uint64, t0, t1 time.Time) (dropped int) {
+	ev, part := "", "write"
+	var extra map[string]string
+	var hist []string
+	if cx != nil {
+		ev, part, extra, hist = cx.ev, cx.part, cx.extra, cx.hist
+	}
 	lo, hi := t0.UnixNano()-int64(d), t1.UnixNano()-int64(d)
 	// groups that some point of the batch which is not certainly expired was routed to
 	liveGroups := map[uint64]bool{}
@@ -405,7 +425,7 @@ func c19Judge(r *vkit.Run, where string, caseNo int, d time.Duration, pts []c19P
 			dropped++
 		}
 		cause := ""
-		r.Event("write_point_verdicts", 1)
+		r.Event(ev+"write_point_verdicts", 1)
 		kind := ""
 		switch {
 		case d == 0:
@@ -413,7 +433,7 @@ func c19Judge(r *vkit.Run, where string, caseNo int, d time.Duration, pts []c19P
 				kind = "rejected_with_infinite_retention"
 			}
 		case p.ts < lo: // older than now-D for every now the call can have seen
-			r.Event("write_points_must_drop", 1)
+			r.Event(ev+"write_points_must_drop", 1)
 			if acc {
 				kind = "expired_point_accepted"
 				cause = "other"
@@ -423,23 +443,26 @@ func c19Judge(r *vkit.Run, where string, caseNo int, d time.Duration, pts []c19P
 				}
 			}
 		case p.ts >= hi: // not older than now-D for any now the call can have seen
-			r.Event("write_points_must_accept", 1)
+			r.Event(ev+"write_points_must_accept", 1)
 			if !acc {
 				kind = "live_point_rejected"
 			}
 		default:
-			r.Event("write_points_in_bracket_either", 1)
+			r.Event(ev+"write_points_in_bracket_either", 1)
 		}
 		if kind != "" {
 			feats := map[string]string{"where": where, "kind": kind}
+			for k, v := range extra {
+				feats[k] = v
+			}
 			if cause != "" {
 				feats["cause"] = cause
-				r.Event("violation_write_"+kind+"_"+cause, 1)
+				r.Event("violation_"+ev+"write_"+kind+"_"+cause, 1)
 			} else {
-				r.Event("violation_write_"+kind, 1)
+				r.Event("violation_"+ev+"write_"+kind, 1)
 			}
 			r.Violation("retention_rejection_wrong", feats,
-				c19Wit{Part: "write", Case: caseNo, D: d.String(), T0: strconv.FormatInt(t0.UnixNano(), 10), T1: strconv.FormatInt(t1.UnixNano(), 10),
+				c19Wit{Part: part, Case: caseNo, D: d.String(), T0: strconv.FormatInt(t0.UnixNano(), 10), T1: strconv.FormatInt(t1.UnixNano(), 10), History: hist,
 					What:   fmt.Sprintf("point %s ts=%d (now-D in [%d,%d]) accepted=%v group=#%d", p.name, p.ts, lo, hi, acc, grp),
 					Points: desc})
 		}
@@ -953,11 +976,13 @@ func c19Service(r *vkit.Run, caseNo int) {
 func TestC19(t *testing.T) {
 	r := vkit.Start(t, "C19", "exploration")
 	defer r.Finish()
-	r.Rule("three case kinds. pure: a retention policy (D from {0,1h,…,100y,odd}) with 1–8 groups (literal contiguous/gapped/clipped/deleted, or produced by Data.CreateShardGroup) evaluated by ExpiredShardGroups(t) at end+D, start+D, end, end-D (each ±1ns), ±1h and extremes; non-trivial = ≥2 groups and some t with both expired and unexpired groups. write: a fresh meta.Client + PointsWriter, two batches of 1–12 points at offsets {-10y…-1ns, 0, +1us…+1d} from now-D plus now, future, extremes, through MapShards and WritePointsPrivileged; non-trivial = at least one dropped and one accepted point. service: 1–4 policies with API-made or literal groups ending at now-D+{-10y…+10y}, pre-deleted groups, phantom / in-use / foreign shards in the store, two DeletionCheck rounds; non-trivial = at least one group that must expire and one that must stay. distinct = hash of the symbolic description (durations, offsets, flags), not of absolute times")
+	r.Rule("three case kinds. pure: a retention policy (D from {0,1h,…,100y,odd}) with 1–8 groups (literal contiguous/gapped/clipped/deleted, or produced by Data.CreateShardGroup) evaluated by ExpiredShardGroups(t) at end+D, start+D, end, end-D (each ±1ns), ±1h and extremes; non-trivial = ≥2 groups and some t with both expired and unexpired groups. write: a fresh meta.Client + PointsWriter, two batches of 1–12 points at offsets {-10y…-1ns, 0, +1us…+1d} from now-D plus now, future, extremes, through MapShards and WritePointsPrivileged; non-trivial = at least one dropped and one accepted point. service: 1–4 policies with API-made or literal groups ending at now-D+{-10y…+10y}, pre-deleted groups, phantom / in-use / foreign shards in the store, two DeletionCheck rounds; non-trivial = at least one group that must expire and one that must stay. fault: a meta.Client on an inmem.KVStore behind a wrapper that fails one chosen Update once (before the transaction, at tx.Bucket, at bucket.Put, or at commit with the transaction's puts discarded); 1–2 buckets with 2–6 API-made groups each, then 6–14 steps of {UpdateRetentionPolicy (period and/or shard-group duration, valid or not), CreateShardGroup, DeleteShardGroup, DropShard, CreateDatabaseWithRetentionPolicy — each with a fault armed half of the time —, write probe (points around now-D and around now-R for refused periods R, plus the middle), DeletionCheck (a fault on its 1st–3rd commit a quarter of the time, then a clean retry round), close+reopen}; after every operation that returned an error: write probe, sometimes DeletionCheck, reading of the periods; final reopen, write probes, DeletionCheck; the model books only what the caller was told (error = nothing changed, nil = took effect); non-trivial = a fired store fault made a period-changing update return an error and a decided point or group verdict was evaluated afterwards. distinct = hash of the symbolic description (durations, offsets, flags, fault kinds, results), not of absolute times")
 	r.Assume("the wall clock does not step backwards between the reading before a call and the reading after it (bracketing, DESIGN §4 M6)",
 		"a group whose end+D equals t exactly may or may not be reported (statement: 'only when'; code: strict <)",
-		"shards of groups that were already marked deleted before the check, and in-use shards, are outside the verdict (either)")
-	r.Trust("inmem.KVStore; the recording TSDBStore and the recording wrapper around meta.Client (pass-through)")
+		"shards of groups that were already marked deleted before the check, and in-use shards, are outside the verdict (either)",
+		"fault stream: a metadata operation that returned an error did not happen (the bucket keeps its period, groups and shards stay as they were), one that returned nil did; an expired group whose DeleteShardGroup commit was the failing one may stay until the next check")
+	r.Trust("inmem.KVStore; the recording TSDBStore and the recording wrapper around meta.Client (pass-through)",
+		"c19FaultStore (fails one Update without writing anything; everything else passes through to inmem.KVStore)")
 	if seed, caseNo, part, ok := metaReplay(); ok {
 		// re-run the recorded case of the recorded part (plus its neighbour); the write and service
 		// parts place their inputs relative to the current time, so a replay re-creates the same
@@ -969,6 +994,8 @@ func TestC19(t *testing.T) {
 				c19Pure(r, c)
 			case "service":
 				c19Service(r, c)
+			case "fault":
+				c19Fault(r, c)
 			default:
 				c19Write(r, c)
 			}
@@ -987,5 +1014,14 @@ func TestC19(t *testing.T) {
 	}
 	for i := 0; i < nSvc; i++ {
 		c19Service(r, i)
+	}
+	// (d) metadata mutations whose kv-store commit fails (c19_fault_test.go): own stream, own counters
+	nFault := r.N(4000, 120000)
+	haveSample := false
+	for i := 0; i < nFault; i++ {
+		if s := c19Fault(r, i); s != nil && !haveSample {
+			haveSample = true
+			r.Extra("fault_stream_sample", s)
+		}
 	}
 }
